@@ -306,6 +306,18 @@ def local_assignments(fn):
     return out
 
 
+def resolve_locals(fn, rounds=4):
+    """`fn` with every single-assignment local replaced by what it was computed from (to a fixpoint of `rounds`
+    substitutions): conditions and calls then read in terms of parameters and access paths, whatever the
+    intermediate locals were called or whether they existed at all."""
+    for _ in range(rounds):
+        new = inline_aliases(fn, lambda v: True)
+        if new is fn:
+            break
+        fn = new
+    return fn
+
+
 def inline_aliases(fn, interesting):
     """Copy of `fn` in which single-assignment locals bound to an expression satisfying `interesting(expr)`
     are replaced by that expression at their uses (so `exhausted = self._a if s else self._b; exhausted[k] = v`
@@ -321,6 +333,11 @@ def inline_aliases(fn, interesting):
                         counts[t.id] = counts.get(t.id, 0) + 1
                         if len(n.targets) == 1 and tt is t:
                             defs[t.id] = n.value
+                # `a, b = X` (X an attribute / subscript path or a name): a is X[0], b is X[1]
+                if len(n.targets) == 1 and isinstance(tt, (ast.Tuple, ast.List)) and isinstance(n.value, (ast.Attribute, ast.Subscript, ast.Name)):
+                    for i, t in enumerate(tt.elts):
+                        if isinstance(t, ast.Name):
+                            defs[t.id] = ast.Subscript(value=n.value, slice=ast.Constant(value=i), ctx=ast.Load())
         elif isinstance(n, (ast.AugAssign, ast.For, ast.comprehension, ast.NamedExpr)):
             tg = n.target
             for t in _targets(tg):
